@@ -31,7 +31,7 @@ EXPLANATION = (
     'NOT decided: exact CBR size, OPUS_BITRATE_MAX fill, CVBR long-term rate, placement of redundancy frames inside '
     'the coder buffer (relational over coder state), sufficiency of the multistream reservation arithmetic.')
 
-CONFIGS = {'quick': ['float'], 'thorough': ['float', 'fixed']}
+CONFIGS = {'quick': ['float', 'custom'], 'thorough': ['float', 'fixed', 'custom']}     # custom: R05.12 only (signalling byte)
 
 
 def setup(rep, tier):
@@ -46,6 +46,7 @@ def setup(rep, tier):
     rep.minimum('R05.9', 1)
     rep.minimum('R05.10', 5)
     rep.minimum('R05.11', 5)
+    rep.minimum('R05.12', 4)
 
 
 def local_key(f, name):
@@ -1099,7 +1100,48 @@ def r05_11(rep, prog):
                              key='%s:celt-rate-refused:%s' % (f.name, sx.show(e0)[:40].replace(' ', '')))
 
 
+# ------------------------------------------------------------------ R05.12
+def r05_12(rep, prog):
+    """celt_encode_with_ec: the byte budget handed to the range coder never exceeds what is left of the caller's buffer.
+    The linear ghost  nbCompressedBytes + (compressed - compressed at entry) - (nbCompressedBytes at entry)  is tracked
+    through `compressed++; nbCompressedBytes--` (custom-modes signalling byte) and through the IMIN/IMAX clamps; it must be
+    <= 0 where the coder is initialised on the caller's buffer and at the CBR shrink.  (The three VBR shrink sites come
+    after relational updates the ghost does not follow and are not decided.)"""
+    f = prog.fn('celt_encode_with_ec')
+    rep.functions.add(f.name)
+    pc = ('param', f.param_index('compressed'))
+    pn = ('param', f.param_index('nbCompressedBytes'))
+    an = absint.Analyzer(prog, f, entry_state={pc: absint.const(0)}, ghosts={'budget': {pn: 1, pc: 1}})
+    n_ = 0
+    for name in ('ec_enc_init', 'ec_enc_shrink'):
+        for b, i, c in T.calls_to(an.cf, name):
+            if sx.key(sx.strip(c[2][-1])) != pn:
+                continue
+            st = an.state_before_node(b, i, c)
+            where = '%s:%s' % (f.file, sx.line(c))
+            inst = '%s:celt_encode_with_ec %s(.., nbCompressedBytes) stays inside the caller buffer' % (prog.config, name)
+            if st is None:
+                continue
+            g = an.ghost_value(st, 'budget')
+            if absint.is_top(g) or absint.hi(g) > 2 ** 20:
+                if name == 'ec_enc_init':
+                    rep.unresolved('R05.12', 'budget ghost lost before ec_enc_init', where)
+                else:
+                    rep.note('R05.12 not decided: %s %s follows a relational VBR update of the budget' % (where, name))
+                continue
+            n_ += 1
+            if absint.hi(g) <= 0:
+                rep.holds('R05.12', inst + ' (line %s)' % sx.line(c), where, 'budget + pointer advance - entry budget in %s' % absint.show(g))
+            else:
+                rep.violated('R05.12', inst, where, 'budget + pointer advance - entry budget may reach %d: the coder is given %d byte(s) more than the caller provided' % (absint.hi(g), absint.hi(g)),
+                             key='celt_encode_with_ec:%s:budget' % name)
+    return n_
+
+
 def check(rep, prog, tier):
+    r05_12(rep, prog)
+    if prog.config == 'custom':
+        return
     r05_11(rep, prog)
     r05_10(rep, prog)
     r05_9(rep, prog)
